@@ -58,4 +58,28 @@ CHECKS = {
         ],
         "assumptions": ["harness type checker written from LanguageDetails.md; the cell bool (- * / %) number is open (run-time half only)"],
     },
+    "C08": {
+        "hang_is_violation": True,
+        "parts": [
+            {"test": "TestC08Corpus", "rapid": False, "quick": 0, "thorough": 0, "shards": 8, "quick_shards": 4},
+            {"test": "TestC08Generated", "quick": 100000, "thorough": 500000, "shards": 16, "quick_shards": 2},
+            {"gofuzz": "FuzzCompile", "fuzztime": "300s", "only_tier": "thorough"},
+        ],
+        "assumptions": ["inputs up to ~300 bytes (corpus files up to 3 kB); inputs whose numeric literals multiply to more than 4096 are excluded (finding K3) and counted",
+                        "a case in flight for 60 s is replayed alone under 120 CPU-seconds / 6 GB before it counts as a hang"],
+    },
+    "C09": {
+        "parts": [
+            {"test": "TestC09", "quick": 12000, "thorough": 200000, "shards": 16, "quick_shards": 2},
+        ],
+        "assumptions": ["process code terminates and subroutines consume before recursing (by construction); zero divisors (K1) and branch-typed variables (K2) excluded by construction, mutants that hit them are counted by signature",
+                        "runs above 200000 VM instructions are discarded and counted"],
+    },
+    "C13": {
+        "parts": [
+            {"test": "TestC13", "quick": 4000, "thorough": 50000, "shards": 16, "quick_shards": 2},
+            {"test": "TestC13History", "quick": 800, "thorough": 2000, "shards": 16, "quick_shards": 2},
+        ],
+        "assumptions": ["capture-free bodies; runs above 100000 VM instructions are discarded and counted"],
+    },
 }
